@@ -78,10 +78,17 @@ let gedge_full s =
 let graph s = let ns = rep s gnode in let es = rep s gedge_full in let r = nextn s in
   { g_nodes = ns; g_edges = es; g_root = r }
 
+let optn s = let k = next s in if k = 0 then None else Some (n_of_int (k - 1))
+let task s = match next s with
+  | 0 -> TDeps (optn s)
+  | 1 -> TCands (nextn s)
+  | 2 -> let so = optn s in let r = req s in TReq (so, r)
+  | _ -> let so = optn s in let v = nextn s in TCon (so, v)
 let sev s = match next s with
-  | 0 -> SEncode (rep s (fun s -> let k = next s in if k = 0 then None else Some (n_of_int (k - 1))))
+  | 0 -> SEncode (rep s optn)
   | 1 -> SSoft (nextn s)
-  | _ -> STrail (event s)
+  | 2 -> STrail (event s)
+  | _ -> SDone (task s)
 let pcall s = match next s with
   | 0 -> CCands (nextn s) | 1 -> CDeps (nextn s)
   | 2 -> let v = nextn s in let i = next s = 1 in CFilter (v, i)
@@ -148,18 +155,24 @@ let () =
               let lg = log s in let core = nlist s in
               b (check_core lg.l_db core)
             | "enc" ->
-              (* U P sevs db calls trail issat -> clauses-equal calls-equal req-true trail-equal final-ok [model sizes] *)
+              (* U P sevs db calls trail issat ->
+                 clauses-equal calls-equal calls-equal-as-multiset all-completed fifo req-true trail-equal final-ok [model sizes] *)
               let u = universe s in let p = problem s in
               let evs = rep s sev in let db = rep s clause in let calls = rep s pcall in
               let trail = rep s lit in let issat = next s = 1 in
               let up = table_provider u in
-              let fuel = nat_of_int 100000 in
-              let (c1, c2) = check_encoder up p fuel evs db calls in
-              let ((f1, f2), f3) = check_encoder_final up p fuel evs trail in
-              (match enc_solve up p fuel (estate0 cache0) [] evs with
-               | Some st -> Printf.sprintf "%s %s %s %s %s %d %d" (b c1) (b c2) (b f1) (b f2) (b (f3 || not issat))
-                              (List.length st.e_db) (List.length st.e_calls)
-               | None -> "0 0 0 0 0 -1 -1")
+              let ((c1, c2), c3) = check_encoder up p evs db calls in
+              let ((f1, f2), f3) = check_encoder_final up p evs trail in
+              let fifo = fifo_ok up p (estate0 cache0) [] [] evs in
+              (match enc_run up p (estate0 cache0) [] [] evs with
+               | Some (st, _) ->
+                 (* asynchronous runs: get_candidates / get_dependencies requests as a multiset (concurrent queries of
+                    one version set may repeat filter/sort in the implementation; no property forbids that) *)
+                 let cd = List.filter (function CCands _ | CDeps _ -> true | _ -> false) in
+                 let perm = List.sort compare (cd calls) = List.sort compare (cd st.e_calls) in
+                 Printf.sprintf "%s %s %s %s %s %s %s %s %d %d" (b c1) (b c2) (b perm) (b c3) (b fifo) (b f1) (b f2)
+                   (b (f3 || not issat)) (List.length st.e_db) (List.length st.e_calls)
+               | None -> "0 0 0 0 0 0 0 0 -1 -1")
             | "logsat" ->
               (* U P log sol -> db-ok run-ok sat-ok [first bad clause index | -] *)
               let u = universe s in let p = problem s in let lg = log s in let sol = nlist s in
